@@ -273,7 +273,7 @@ func init() {
 		Run: func(c *mc.Ctx) {
 			// choose a subset of <= 4 keys (as ascending indices), an optional
 			// duplicated key, a permutation, and a value style
-			maxKeys := 4
+			maxKeys := c.Pick(4, 5)
 			pool := c11Keys
 			var idx []int
 			next := 0
@@ -408,7 +408,7 @@ func init() {
 		Name: "C11/call-sequences",
 		Mode: "explicit-state search over encoder call histories (state = bytes emitted so far)",
 		Run: func(c *mc.Ctx) {
-			depth := c.Pick(3, 4)
+			depth := c.Pick(3, 5)
 			var got bytes.Buffer
 			var want []byte
 			enc := cbor.NewEncoder(&got)
@@ -467,7 +467,7 @@ func init() {
 	register(&mc.Property{
 		ID:    "C11",
 		Level: "model_checking",
-		Rule:  "choice-tree enumeration of encoder inputs: every uint64/int64 within +-64 of each head boundary and every 2^k+-1; byte/text strings of every length 0..300 and around 65536; all text contents of length <=3 over a 15-byte UTF-8 boundary alphabet (incl. U+FFFD); every subset of <=4 keys from a pool of 10 mixed-type keys in every permutation plus every duplicated key, three value styles; all encoder call sequences up to depth 3 (quick) / 4 (thorough) over an 11-call menu. A case is non-trivial when it produced output that was compared byte-for-byte with the independent canonical encoder (or was a refused input); distinct by output/input hash.",
+		Rule:  "choice-tree enumeration of encoder inputs: every uint64/int64 within +-64 of each head boundary and every 2^k+-1; byte/text strings of every length 0..300 and around 65536; all text contents of length <=3 over a 15-byte UTF-8 boundary alphabet (incl. U+FFFD); every subset of <=4 (quick) / <=5 (thorough) keys from a pool of 10 mixed-type keys in every permutation plus every duplicated key, three value styles; all encoder call sequences up to depth 3 (quick) / 5 (thorough) over an 11-call menu. A case is non-trivial when it produced output that was compared byte-for-byte with the independent canonical encoder (or was a refused input); distinct by output/input hash.",
 		Assumptions: []string{
 			"refcbor (independent canonical encoder/decoder written from RFC 8949) is correct",
 			"values between the enumerated boundary windows behave like their neighbours in the same head-size class (small-scope hypothesis)",
